@@ -1002,7 +1002,7 @@ func init() {
 	harness.Register(&harness.Check{
 		ID:          "C13",
 		Level:       "exploration",
-		Rule:        "part synth: ELF64 files (header + program headers) generated under linker constraints (1-4 PT_LOAD sorted by vaddr, off = vaddr mod page, non-zero first vaddr, bss, neighbours packed onto one file page or on separate pages, 4 KiB or 2 MiB alignment, ET_DYN/ET_EXEC), loader simulation at a random page-aligned bias (also biases that are not multiples of p_align, and negative ones for objects with a non-zero image base), segments optionally padded to a page boundary, the executable mapping whole, split in two, or with its tail (from any page on) merged with the mapping of the following segment as adjacent same-file mappings are reported; addresses at segment start, end-1, interior; result must be address - bias, an error only counts in the unambiguous class, a wrong address always counts; further addresses through the same object file. part protocol: an interposed llvm-symbolizer echoes the address it is sent: it must be the link-time address; alternately an interposed GNU addr2line (echoing its question) plus an interposed nm table (one long-named symbol per 64 bytes) at high and at low biases: the reported name must be the one either tool gives for the link-time address. part nm: generated sorted symbol tables (duplicates, zero sizes, adjacent, text/data types, junk lines) behind an interposed nm, probed at start-1, start, start+1, end-1, end of every symbol and outside the table. part real: the same C program built with gcc/clang as -pie, -no-pie, noseparate-code, max-page-size=2MiB, -Ttext-segment, with gold (with and without --rosegment), and as a shared object laid out by a linker script like lld's default (read-only segment first, code packed behind it in the same file page); loader-simulated from its real headers at three biases; ObjAddr exact and SourceLine (llvm-symbolizer and nm) names the function whose symbol-table range contains the address; and a profile with samples at those runtime addresses run through the real driver (pprof -symbolize=local -proto) must come back with those function names, also when the object is mapped twice at different biases in one profile. non-trivial = every case; distinct = layout + bias",
+		Rule:        "part synth: ELF64 files (header + program headers) generated under linker constraints (1-4 PT_LOAD sorted by vaddr, off = vaddr mod page, non-zero first vaddr, bss, neighbours packed onto one file page or on separate pages, 4 KiB or 2 MiB alignment, ET_DYN/ET_EXEC), loader simulation at a random page-aligned bias (also biases that are not multiples of p_align, and negative ones for objects with a non-zero image base), segments optionally padded to a page boundary, the executable mapping whole, split in two, or with its tail (from any page on) merged with the mapping of the following segment as adjacent same-file mappings are reported; addresses at segment start, end-1, interior; result must be address - bias, an error only counts in the unambiguous class, a wrong address always counts; further addresses through the same object file. part protocol: an interposed llvm-symbolizer echoes the address it is sent: it must be the link-time address; alternately an interposed GNU addr2line (echoing its question) plus an interposed nm table (one long-named symbol per 64 bytes) at high and at low biases: the reported name must be the one either tool gives for the link-time address. part nm: generated sorted symbol tables (duplicates, zero sizes, adjacent, text/data types, junk lines) behind an interposed nm, probed at start-1, start, start+1, end-1, end of every symbol and outside the table. part real: the same C program built with gcc/clang as -pie, -no-pie, noseparate-code, max-page-size=2MiB, -Ttext-segment, with gold (with and without --rosegment), and as a shared object laid out by a linker script like lld's default (read-only segment first, code packed behind it in the same file page); loader-simulated from its real headers at three biases; ObjAddr exact and SourceLine (llvm-symbolizer and nm) names the function whose symbol-table range contains the address; and a profile with samples at those runtime addresses run through the real driver (pprof -symbolize=local -proto) must come back with those function names, also when the object is mapped twice at different biases in one profile. part legacy: a legacy text profile whose memory map lists the text of the real executable in pieces; samples symbolize to the functions nm reports. non-trivial = every case; distinct = layout + bias",
 		Assumptions: []string{"page size 4 KiB", "unambiguous class = the address lies in the file-backed part of exactly one PT_LOAD and no other segment has file content on the same page, mapping not split, and (merged mappings) the mapping holds at least one full page of the executable segment; pprof attributes a merged mapping holding less than a page of a segment to the next segment by design and answers with an error", "layouts are those the generator and the installed compilers produce"},
 		Parts: []harness.Part{
 			{Name: "synth", Quick: 6000, Thor: 300000, Run: runSynth},
